@@ -31,7 +31,8 @@ R = Run("C03",
 SEED = R.args.seed
 seen = set()
 skipped = {"not-convertible": 0, "overflow": 0}
-RTOL = {"float64": 1e-12, "complex128": 1e-12, "int64": 1e-12, "int32": 1e-12, "float32": 64 * 1.2e-7, "complex64": 64 * 1.2e-7}
+RTOL = {"float64": 1e-12, "complex128": 1e-12, "int64": 1e-12, "int32": 64 * 1.2e-7, "float32": 64 * 1.2e-7, "complex64": 64 * 1.2e-7}
+EFF = {"float64": "float64", "complex128": "float64", "int64": "float64", "int32": "float32", "float32": "float32", "complex64": "float32"}
 DTYPES = ["float64", "float32", "int64", "complex128"] + (["int32", "complex64"] if R.thorough else [])
 VALUES = {"f": [1.0, 2.5, -3.75], "i": [1, 2, -3], "c": [1 + 2j, -2.5 + 0.5j, 3 - 1j]}
 KN = {"float64": "flt", "float32": "flt32", "int64": "int", "int32": "int32", "complex128": "cpx", "complex64": "cpx64"}
@@ -362,7 +363,7 @@ def check_base(group, units, dt, scalar):
             off = offs_si((A,))
             tu = ref.units
             scale = np.abs(np.atleast_1d(rb).astype(complex)) + (off / abs(float(tu.base_value)) if not group.startswith("em-") else 0)
-            rt = max(8 * float(np.finfo(rb.dtype if rb.dtype.kind in "fc" else np.dtype("float64")).eps), 8 * float(np.finfo(np.dtype(dt) if np.dtype(dt).kind in "fc" else np.dtype("float64")).eps))
+            rt = max(8 * float(np.finfo(rb.dtype if rb.dtype.kind in "fc" else np.dtype("float64")).eps), 8 * float(np.finfo(np.dtype(EFF[dt])).eps))
             for rname, code in routes:
                 env = {"x": x, "np": np}
                 try:
